@@ -4,8 +4,11 @@ spec:      spec/MultiValued.tla (class tables, Build / Dump / Parse / Load, widt
 binding:   (a) CASE lines printed by TLC (class, behaviour, subset of fields, record shapes, expected
                line layout incl. width, expected sub-field names) replayed into the real classes in
                both directions: records -> dump() -> parse, and text -> parse -> dump() -> parse
+               histories (dump, mutate the record lists in place / by assignment / delete a field,
+               dump again ...) are replayed on ONE living object with the expected layout of every dump
            (b) life cycles recorded from the real classes (random subsets, 1..6 records, arbitrary
-               token lengths, arbitrary white space) validated by spec/TraceMultiValued.tla
+               token lengths, arbitrary white space, in-place mutations between dumps) validated by
+               spec/TraceMultiValued.tla
 Everything that decides a verdict (expected names, layouts, widths, "dump is total") comes from TLC.
 """
 import json
@@ -18,7 +21,7 @@ import core
 
 MANIFEST = dict(
     technique="TLA+ spec (MultiValued: class tables, Build/Dump/Parse/Load, width rule) model-checked by TLC over every subset of every class's structured fields; CASE lines replayed into Dsc/Changes/BuildInfo/PdiffIndex/Release in both directions; recorded life cycles validated by TLC (TraceMultiValued)",
-    text="TLC explores, to a fixed point, every class x Release.size_field_behavior x EVERY subset of the class's structured fields (PdiffIndex: 2^14) x record lists of <= 2 records (sizes of 1..18 characters, single-line form included) and checks DumpTotal, RecordsRoundTrip, SubFieldNames and the width rule (16, or the longest size of the field); two spec-level negative controls (IterateAllFields = the pre-78e977a KeyError, SplitEverySpace) must make TLC report a violation in every run. Each explored paragraph is printed as a CASE line with the expected layout and replayed with concretized tokens: build from records -> dump() -> parse, and parse the expected text -> dump() -> parse; recorded life cycles with up to 6 records, arbitrary token lengths and white space are validated by TLC against the same actions.",
+    text="TLC explores, to a fixed point, every class x Release.size_field_behavior x EVERY subset of the class's structured fields (PdiffIndex: 2^14) x record lists of <= 2 records (sizes of 1..18 characters, single-line form included) and checks DumpTotal, RecordsRoundTrip, SubFieldNames and the width rule (16, or the longest size of the field); the life cycle is a history: after a dump a record may be appended or a size replaced in place, a list re-assigned, a field deleted, and every later dump is checked against the current records; spec-level negative controls (IterateAllFields = the pre-78e977a KeyError, CacheWidths = stale width table after an in-place mutation, SplitEverySpace) must make TLC report a violation. Each explored paragraph is printed as a CASE line with the expected layout and replayed with concretized tokens: build from records -> dump() -> parse, and parse the expected text -> dump() -> parse; recorded life cycles with up to 6 records, arbitrary token lengths and white space are validated by TLC against the same actions.",
     note="Sub-field tables are transcribed from the module docstring (BuildInfo is not listed there: taken from deb-buildinfo(5)/the class). Unspecified: Release/dak with a single-line field (TypeError today), width of a Release/apt-ftparchive field holding a size longer than 16. Separator blanks other than the size padding are diagnostic. Quick tier replays a seed-dependent 1/16 sample of the PdiffIndex subsets (all are model-checked), thorough replays every subset. Trusted: TLC, the layout projection (regex over dump()), the concretizer.",
     design="5 (C12)")
 
@@ -124,22 +127,24 @@ def make_token(rng, sub, n, canonical, k):
 
 
 def concretize(rng, case, canonical):
-    """token texts for every (field, id) of a CASE: distinct ids -> distinct texts of the stated length"""
-    conc = {}
-    for fld in case["F"]:
-        f, names, lines = fld[0], fld[5], fld[6]
-        pool, used = {}, set()
-        for line in lines:
-            for i, (pad, tid, n) in enumerate(line):
-                if tid in pool:
-                    continue
-                for attempt in range(50):
-                    t = make_token(rng, names[i], n, canonical and attempt == 0, tid + attempt)
-                    if t not in used:
-                        break
-                pool[tid] = t
-                used.add(t)
-        conc[str(f)] = {str(k): v for k, v in pool.items()}
+    """token texts for every (field, id) of a CASE (all dumps of its history): distinct ids ->
+    distinct texts of the stated length"""
+    conc, used = {}, {}
+    fls = [case["F"]] + [st[1] for st in case.get("H", []) if st[0] == "dump"]
+    for F in fls:
+        for fld in F:
+            f, names, lines = fld[0], fld[5], fld[6]
+            pool, seen = conc.setdefault(str(f), {}), used.setdefault(f, set())
+            for line in lines:
+                for i, (pad, tid, n) in enumerate(line):
+                    if str(tid) in pool:
+                        continue
+                    for attempt in range(50):
+                        t = make_token(rng, names[i], n, canonical and attempt == 0, tid + attempt)
+                        if t not in seen:
+                            break
+                    pool[str(tid)] = t
+                    seen.add(t)
     return conc
 
 
@@ -293,10 +298,75 @@ def run_case(ctx, case, conc, variant, tables):
     return check_records(case, conc, observe_records(obj3, table), "B parse(dump(parse(text)))")
 
 
+def run_history(ctx, case, conc, variant, tables):
+    """replay a history on ONE living object: start (from records or from text), then for every
+    step of H either dump() -- compared with the layout / records the model expects for the
+    CURRENT records -- or a mutation applied in place / by assignment"""
+    cname, beh = case["c"], case["b"]
+    table = tables[cname]
+    lnames = {fld["f"].lower() for fld in table}
+    H = case["H"]
+    first = {"c": cname, "b": beh, "F": H[0][1]}
+    tok = lambda f, pair: conc[str(f)][str(pair[0])]
+    if variant.get("start") == "text":
+        obj, err = new_obj(cname, beh, as_input(render(first, conc, variant), variant.get("input", 0)))
+        if err:
+            return "H: parsing the start text: " + err
+    else:
+        obj, err = new_obj(cname, beh)
+        if err:
+            return "H: " + err
+        try:
+            for fld in first["F"]:
+                f, fname, names, lines = fld[0], fld[1], fld[5], fld[6]
+                obj[fname] = [dict((names[i], conc[str(f)][str(tid)]) for i, (pad, tid, n) in enumerate(line)) for line in lines]
+        except Exception as e:
+            return "H: building the paragraph raised %s: %s" % (type(e).__name__, e)
+    done = []
+    for k, st in enumerate(H):
+        op = st[0]
+        what = "H step %d (%s after %s)" % (k + 1, op, ", ".join(done) or "start")
+        if op == "dump":
+            step = {"c": cname, "b": beh, "F": st[1]}
+            text, res = do_dump(obj)
+            if res != "ok":
+                return "%s: dump() raised %s; model: dump is total" % (what, res[4:])
+            m = check_layout(ctx, step, conc, observe_layout(text, lnames), what)
+            if m:
+                return m
+            obj2, err = new_obj(cname, beh, text)
+            if err:
+                return "%s: re-parsing dump(): %s" % (what, err)
+            m = check_records(step, conc, observe_records(obj2, table), what + " parse(dump())")
+            if m:
+                return m
+            done.append("dump")
+            continue
+        f = st[1]
+        fname, subs = table[f - 1]["f"], table[f - 1]["subs"]
+        try:
+            if op == "append":
+                obj[fname].append(dict(zip(subs, [tok(f, p) for p in st[2]])))
+            elif op == "setsize":
+                obj[fname][st[2] - 1]["size"] = tok(f, st[3])
+            elif op == "assign":
+                obj[fname] = [dict(zip(subs, [tok(f, p) for p in rec])) for rec in st[2]]
+            elif op == "delete":
+                del obj[fname]
+            else:
+                raise core.MachineryError("unknown history step %r" % (st,))
+        except core.MachineryError:
+            raise
+        except Exception as e:
+            return "%s: %s on %s raised %s: %s" % (what, op, fname, type(e).__name__, e)
+        done.append("%s %s" % (op, fname))
+    return None
+
+
 def make_variant(rng, c):
     if c == 0:
-        return {}
-    return {"spell": rng.randrange(3), "input": rng.randrange(4), "reverse": rng.random() < 0.5,
+        return {"start": "records"}
+    return {"start": rng.choice(["records", "text"]), "spell": rng.randrange(3), "input": rng.randrange(4), "reverse": rng.random() < 0.5,
             "deb822dict": rng.random() < 0.5, "beh_late": rng.random() < 0.5,
             "extra_first": rng.randrange(5) if rng.random() < 0.5 else 0,
             "extra_last": rng.randrange(5) if rng.random() < 0.3 else 0}
@@ -351,7 +421,47 @@ def gen_recipe(rng, tables):
     rng.shuffle(order)
     return {"cls": cname, "beh": beh, "dir": direction, "fields": fields, "order": order,
             "spell": rng.randrange(3), "input": rng.randrange(4), "again": rng.random() < 0.3,
-            "extra": rng.randrange(5) if rng.random() < 0.4 else 0}
+            "extra": rng.randrange(5) if rng.random() < 0.4 else 0,
+            "muts": gen_mutations(rng, table, fields)}
+
+
+def gen_mutations(rng, table, fields):
+    """0..3 mutations of the living object, each followed by another dump: append a record /
+    replace a size in place (growing or shrinking the longest size), re-assign a list, delete a field"""
+    cur = {x["f"]: {"form": x["form"], "recs": [list(r) for r in x["recs"]]} for x in fields}
+    muts = []
+    for _ in range(rng.choice([0, 0, 1, 1, 2, 3])):
+        multi = [f for f in cur if cur[f]["form"] == "multi"]
+        ops = ["assign"] + (["append", "append", "setsize", "setsize"] if multi else []) + (["delete"] if cur else [])
+        op = rng.choice(ops)
+        if op == "assign":
+            f = rng.choice(sorted(cur)) if cur and rng.random() < 0.7 else rng.randint(1, len(table))
+        elif op == "delete":
+            f = rng.choice(sorted(cur))
+        else:
+            f = rng.choice(multi)
+        subs = table[f - 1]["subs"]
+
+        def new_rec(maxsize):
+            return [make_token(rng, s, rng.randint(1, maxsize) if s == "size" else rng.randint(1, 20), False, 0) for s in subs]
+        if op == "append":
+            rec = new_rec(rng.choice([2, 9, 18]))
+            cur[f]["recs"].append(rec)
+            muts.append({"op": "append", "f": f, "rec": rec})
+        elif op == "setsize":
+            r = rng.randrange(len(cur[f]["recs"]))
+            t = make_token(rng, "size", rng.choice([1, 2, 5, 9, 12, 16, 18]), False, 0)
+            cur[f]["recs"][r][subs.index("size")] = t
+            muts.append({"op": "setsize", "f": f, "r": r + 1, "tok": t})
+        elif op == "assign":
+            recs = [new_rec(rng.choice([3, 18])) for _ in range(rng.randint(1, 4))]
+            cur[f] = {"form": "multi", "recs": recs}
+            muts.append({"op": "assign", "f": f, "recs": recs})
+        else:
+            del cur[f]
+            muts.append({"op": "delete", "f": f})
+        muts[-1]["single_left"] = any(v["form"] == "single" for v in cur.values())
+    return muts
 
 
 class Pool:
@@ -439,23 +549,55 @@ def execute(recipe, tables):
         events.append({"op": "given", "fields": given})
         events.append({"op": "parse", "fields": ev_records(observe_records(obj, table), pool)})
         events.append({"op": "load"})
-    rounds = 2 if recipe["again"] else 1
-    for rnd in range(rounds):
+    # the living object `obj` is dumped; every dump is parsed back into a FRESH object; "load"
+    # continues with that fresh object, a mutation changes the living one
+    def dump_parse(obj, unspec):
         text, res = do_dump(obj)
-        if unspecified:
+        if unspec:
             tr["unspecified_dump"] = res
-            return tr             # executed; not logged: any outcome is accepted
+            return None           # executed; not logged: any outcome is accepted
         if res != "ok":
             events.append({"op": "dump", "res": res.split(":")[1], "fields": []})
-            return tr
+            return None
         events.append({"op": "dump", "res": "ok", "fields": ev_layout(observe_layout(text, lnames), table, pool)})
-        obj, err = new_obj(cname, beh, text)
+        fresh, err = new_obj(cname, beh, text)
         if err:
             events.append({"op": "error", "what": err})
+            return None
+        events.append({"op": "parse", "fields": ev_records(observe_records(fresh, table), pool)})
+        return fresh
+
+    fresh = dump_parse(obj, unspecified)
+    if fresh is None:
+        return tr
+    if recipe["again"]:
+        events.append({"op": "load"})
+        obj = fresh
+        fresh = dump_parse(obj, unspecified)
+        if fresh is None:
             return tr
-        events.append({"op": "parse", "fields": ev_records(observe_records(obj, table), pool)})
-        if rnd + 1 < rounds:
-            events.append({"op": "load"})
+    for mu in recipe.get("muts", []):
+        f = mu["f"]
+        fname, subs = spell(table[f - 1]["f"]), table[f - 1]["subs"]
+        try:
+            if mu["op"] == "append":
+                obj[fname].append(dict(zip(subs, mu["rec"])))
+                events.append({"op": "append", "f": f, "rec": [pool.tok(t) for t in mu["rec"]]})
+            elif mu["op"] == "setsize":
+                obj[fname][mu["r"] - 1]["size"] = mu["tok"]
+                events.append({"op": "setsize", "f": f, "r": mu["r"], "tok": pool.tok(mu["tok"])})
+            elif mu["op"] == "assign":
+                obj[fname] = [dict(zip(subs, rec)) for rec in mu["recs"]]
+                events.append({"op": "assign", "f": f, "form": "multi",
+                               "recs": [[pool.tok(t) for t in rec] for rec in mu["recs"]]})
+            else:
+                del obj[fname]
+                events.append({"op": "delete", "f": f})
+        except Exception as e:
+            events.append({"op": "error", "what": "%s raised %s: %s" % (mu["op"], type(e).__name__, e)})
+            return tr
+        if dump_parse(obj, cname == "Release" and beh == "dak" and mu["single_left"]) is None:
+            return tr
     return tr
 
 
@@ -489,13 +631,24 @@ def corrupt(t, how):
         if how == "lostfield" and e["op"] == "dump" and len(e["fields"]) >= 1:
             e["fields"].pop()
             return t
+        if how == "lostmutation" and e["op"] in ("append", "setsize", "delete") and i + 1 < len(evs):
+            del evs[i]
+            return t
+        if how == "stalewidth" and e["op"] in ("append", "setsize") and t["cls"] in ("Release", "PdiffIndex") \
+                and t["beh"] != "apt-ftparchive" and i + 1 < len(evs) and evs[i + 1]["op"] == "dump":
+            # pretend the dump after an in-place mutation still pads to some other width
+            for fl in evs[i + 1]["fields"]:
+                if fl["f"] == e["f"] and fl["form"] == "multi":
+                    for line in fl["lines"]:
+                        line[1]["pad"] += 2
+                    return t
     return None
 
 
 def validate(ctx, traces, with_controls=True):
     controls = []
     if with_controls:
-        for how in ("swap", "name", "drop", "pad", "keyerror", "lostfield"):
+        for how in ("swap", "name", "drop", "pad", "keyerror", "lostfield", "lostmutation", "stalewidth"):
             for t in traces:
                 c = corrupt(t, how)
                 if c:
@@ -584,7 +737,7 @@ def run(ctx):
     rng = ctx.rng
     ctx.assumptions += [
         "D3: record lists are non-empty, tokens contain no white space, a record has one token per documented sub-field",
-        "model: <= 2 records per field in the closed configurations (sizes 1..18 characters); up to 6 records, arbitrary lengths in the recorded traces",
+        "model: <= 2 records per field in the closed configurations (sizes 1..18 characters), histories of <= 2 mutations (append / size in place / assign / delete) with a dump after each; up to 6 records, arbitrary lengths, up to 3 mutations in the recorded traces",
         "unspecified (executed, any outcome accepted): Release/dak with a single-line field; width of a Release/apt-ftparchive field holding a size of more than 16 characters",
         "blanks other than the padding of the size column of Release/PdiffIndex multi-line fields are diagnostic (spec_drift), not verdicts",
         "concretization of tokens is sampled (seeded); trusted: TLC, the regex projection of dump(), the concretizer",
@@ -598,6 +751,7 @@ def run(ctx):
         "pdiff": bg_tlc(ctx, "MultiValued", cfg_with(cfg_p, EmitOff=emit_off), workers=max(1, WORKERS - 2), want_tags={"CASE"}),
         "small": bg_tlc(ctx, "MultiValued", cfg_with(cfg_s, EmitOff=emit_off), workers=max(1, WORKERS // 2), want_tags={"CASE"}),
         "neg_iterate": bg_tlc(ctx, "MultiValued", cfg_with("MC_MultiValued_neg_iterate.cfg", Emit="TRUE"), workers=1, want_tags={"TABLES"}),
+        "neg_cache": bg_tlc(ctx, "MultiValued", "MC_MultiValued_neg_cache.cfg", workers=1, want_tags=set()),
     }
     if not quick:       # the other spec-level controls do not depend on the tree: thorough tier only
         jobs["neg_split"] = bg_tlc(ctx, "MultiValued", "MC_MultiValued_neg_split.cfg", workers=1, want_tags=set())
@@ -624,6 +778,9 @@ def run(ctx):
         must_hold(r_pdiff)
         replay_cases(ctx, r_pdiff, tables, 2, stats)
 
+        r4 = jobs["neg_cache"].join()
+        if r4.violated not in ("WidthRule", "RightAligned"):
+            raise core.MachineryError("negative control CacheWidths: TLC reported %r instead of a violation of WidthRule" % r4.violated)
         r2 = r3 = None
         if not quick:
             r2 = jobs["neg_split"].join()
@@ -637,10 +794,10 @@ def run(ctx):
         for j in jobs.values():
             j.th.join()
     # all threads are finished: bookkeeping
-    for r, cnt in ((r1, False), (r2, False), (r3, False), (r_small, True), (r_pdiff, True)):
+    for r, cnt in ((r1, False), (r4, False), (r2, False), (r3, False), (r_small, True), (r_pdiff, True)):
         if r is not None:
             account(ctx, "MultiValued", r, cnt)
-    ctx.extra["negative_controls_spec"] = {"IterateAllFields": r1.violated}
+    ctx.extra["negative_controls_spec"] = {"IterateAllFields": r1.violated, "CacheWidths": r4.violated}
     if r2 is not None:
         ctx.extra["negative_controls_spec"].update({"SplitEverySpace": r2.violated, "IterateAllFields on classes without lookup": r3.violated or "holds"})
     ctx.extra["cases_per_mode"] = stats["per_mode"]
@@ -692,8 +849,8 @@ def replay_cases(ctx, r, tables, nconc, stats):
         for c in range(nconc):
             conc = concretize(rng, case, canonical=(c == 0))
             variant = make_variant(rng, c)
-            msg = run_case(ctx, case, conc, variant, tables)
-            ctx.case_seen(("case", case["m"], case["c"], case["b"], json.dumps(case["F"])), bool(case["F"]))
+            msg = (run_history if case.get("H") else run_case)(ctx, case, conc, variant, tables)
+            ctx.case_seen(("case", case["m"], case["c"], case["b"], json.dumps(case["F"]), json.dumps(case.get("H", []))), bool(case["F"]) or bool(case.get("H")))
             ctx.traces += 1
             if msg:
                 ctx.violation({"kind": "case", "case": case, "conc": conc, "variant": variant, "tables": tables}, msg)
@@ -710,12 +867,15 @@ def describe_event(t, ev):
         return "dump -> %s" % ev["res"]
     if ev["op"] == "error":
         return ev["what"]
+    if ev["op"] in ("append", "setsize", "assign", "delete"):
+        return "%s field %d" % (ev["op"], ev["f"])
     return ev["op"]
 
 
 def replay(ctx, case):
     if case["kind"] == "case":
-        return run_case(ctx, case["case"], case["conc"], case["variant"], case["tables"])
+        fn = run_history if case["case"].get("H") else run_case
+        return fn(ctx, case["case"], case["conc"], case["variant"], case["tables"])
     if case["kind"] == "trace":
         tables = tables_from_tlc(ctx)
         new = execute(case["recipe"], tables)
